@@ -1372,19 +1372,27 @@ impl StoryState {
 
             if let Some(output_stream_obj) = j_object.get("outputStream") {
                 self.current_flow.output_stream = json_read::jarray_to_runtime_obj_list(
-                    output_stream_obj.as_array().unwrap(),
+                    output_stream_obj
+                        .as_array()
+                        .ok_or(StoryError::BadJson("Invalid output stream".to_owned()))?,
                     false,
                 )?;
             }
 
             if let Some(current_choices_obj) = j_object.get("currentChoices") {
                 self.current_flow.current_choices = json_read::jarray_to_runtime_obj_list(
-                    current_choices_obj.as_array().unwrap(),
+                    current_choices_obj
+                        .as_array()
+                        .ok_or(StoryError::BadJson("Invalid current choices".to_owned()))?,
                     false,
                 )?
                 .iter()
-                .map(|o| o.clone().into_any().downcast::<Choice>().unwrap())
-                .collect();
+                .map(|o| {
+                    o.clone().into_any().downcast::<Choice>().map_err(|_| {
+                        StoryError::BadJson("currentChoices holds a non-choice.".to_owned())
+                    })
+                })
+                .collect::<Result<Vec<Rc<Choice>>, StoryError>>()?;
             }
 
             let j_choice_threads_obj = j_object.get("choiceThreads");
@@ -1409,8 +1417,12 @@ impl StoryState {
         }
 
         if let Some(eval_stack_obj) = j_object.get("evalStack") {
-            self.evaluation_stack =
-                json_read::jarray_to_runtime_obj_list(eval_stack_obj.as_array().unwrap(), false)?;
+            self.evaluation_stack = json_read::jarray_to_runtime_obj_list(
+                eval_stack_obj
+                    .as_array()
+                    .ok_or(StoryError::BadJson("Invalid evaluation stack".to_owned()))?,
+                false,
+            )?;
         }
 
         if let Some(current_divert_target_path) = j_object.get("currentDivertTarget") {
